@@ -39,6 +39,11 @@ def functions_encoded():
 
 def instances(tier):
     out = []
+    # a call under the default (whole-curve) search range precedes the checked call in the same process: the verdicts of the
+    # second call follow ITS search range (scheduled first: these instances are the slowest to reach their first result)
+    for rng in ("lo", "hi"):
+        out.append({"name": f"reliability_c_{rng}_after_default_range_call", "func": "run_reliability", "kwargs": {"grid": "c", "rng": rng, "prior": True}})
+        out.append({"name": f"clarity_c_{rng}_after_default_range_call", "func": "run_clarity", "kwargs": {"grid": "c", "rng": rng, "prior": True}})
     grids = ["a", "b"] if tier == "quick" else ["a", "b", "c", "d"]
     for g in grids:
         for rng in ("none", "lo", "hi"):
@@ -47,11 +52,6 @@ def instances(tier):
     # a grid on which the bands (f0/4, f0) and (f0, 4 f0) can be empty
     out.append({"name": "clarity_e_none", "func": "run_clarity", "kwargs": {"grid": "e", "rng": "none"}})
     out.append({"name": "reliability_e_none", "func": "run_reliability", "kwargs": {"grid": "e", "rng": "none"}})
-    # a call under the default (whole-curve) search range precedes the checked call in the same process: the verdicts of the
-    # second call follow ITS search range
-    for rng in ("lo", "hi"):
-        out.append({"name": f"reliability_c_{rng}_after_default_range_call", "func": "run_reliability", "kwargs": {"grid": "c", "rng": rng, "prior": True}})
-        out.append({"name": f"clarity_c_{rng}_after_default_range_call", "func": "run_clarity", "kwargs": {"grid": "c", "rng": rng, "prior": True}})
     out.append({"name": "monotone_reliability_ii", "func": "run_monotone", "kwargs": {"which": "ii"}})
     out.append({"name": "monotone_clarity_v", "func": "run_monotone", "kwargs": {"which": "v"}})
     return out
@@ -146,7 +146,6 @@ def run_reliability(rep, tier, grid, rng, prior=False):
         nw = Sym.var("nw", ctx, lo=1)
         if prior:
             outcome(lambda: SE.reliability(lw, nw, frq, mean, std, verbose=0))
-            outcome(lambda: SE.clarity(frq, mean, std, Sym.var("fn_std0", ctx, lo=0), verbose=0))
         outs = [outcome(lambda v=v: SE.reliability(lw, nw, frq, mean, std, search_range_in_hz=sr, verbose=v)) for v in (0, 1, 2)]
         j0 = reference_peak(frq, mean, sr)
         return c, frq, mean, std, s, sr, lw, nw, outs, j0
@@ -185,7 +184,6 @@ def run_clarity(rep, tier, grid, rng, prior=False):
         fstd = Sym.var("fn_std", ctx, lo=0)
         if prior:
             outcome(lambda: SE.clarity(frq, mean, std, fstd, verbose=0))
-            outcome(lambda: SE.reliability(Sym.var("lw0", ctx, pos=True), Sym.var("nw0", ctx, lo=1), frq, mean, std, verbose=0))
         outs = [outcome(lambda v=v: SE.clarity(frq, mean, std, fstd, search_range_in_hz=sr, verbose=v)) for v in (0, 1, 2)]
         j0 = reference_peak(frq, mean, sr)
         up = np.array([(mean[j].log() + s[j]).exp() for j in range(len(frq))], dtype=object)
